@@ -1105,7 +1105,7 @@ def dispatch_unit(text, features):
 # ---- guard_expression_true (src/interpreter/src/expressions.rs, whole) ---------------------------------------------------------------------
 GUARDTRUE_MODEL = """
 #[derive(Clone, Copy, PartialEq, Eq, Structural)]
-pub enum Value { Bool(bool), Other(u64) }
+pub enum Value { Bool(bool), Empty, Other(u64) }
 pub struct Expression { pub id: u64 }
 pub struct Environment { pub id: u64 }
 pub struct Interpreter { pub id: u64 }
